@@ -468,7 +468,8 @@ func (c *Ctx) evalWriterData(fn *ssa.Function, format int64, zero bool) ([]tmplE
 			}
 			return symV(s), true
 		}
-		return sv{}, false
+		// a table of the package that only ever holds its initialiser (ext_x9.go)
+		return c.constTableValueX9(ev, ld, addr)
 	}
 	ev.oracle = func(op token.Token, x, y sv) (bool, bool) {
 		if x.k == svNil || y.k == svNil {
